@@ -219,6 +219,58 @@ class Campaign:
         finally:
             shutil.rmtree(dst, ignore_errors=True)
 
+    def crc_case(self, fid, e, field, nth, pos, newdigit, mode):
+        """a damaged line that the reader must refuse: one digit of a digest changed with the line's
+        crc32c LEFT ALONE (mode keepcrc), or one hex digit of the crc itself changed (mode crc).
+        Both real verifiers have to reject the fragment (an error of the manifest reader is a
+        rejection; that the reader refuses such a line is C13's theorem, the model's verifier takes
+        parsed edits).  No model verdict."""
+        src = os.path.join(self.root, "mani", "MANIFEST.%d" % fid)
+        edits, tail = split_edits(open(src, "rb").read())
+        if e >= len(edits):
+            return
+        i = self.find_line(edits[e], field, nth)
+        if i is None:
+            return
+        ln = edits[e][i].decode()
+        if mode == "keepcrc":
+            at = 8 + 1 + pos
+            if at >= len(ln) - 1 or ln[at].lower() == newdigit.lower():
+                return
+        else:
+            at = pos % 8
+            if ln[at].lower() == newdigit.lower():
+                return
+        edits[e][i] = (ln[:at] + newdigit + ln[at + 1:]).encode()
+        self.n += 1
+        dst = self.root + ".t%d" % self.n
+        shutil.rmtree(dst, ignore_errors=True)
+        shutil.copytree(self.root, dst)
+        try:
+            path = os.path.join(dst, "mani", "MANIFEST.%d" % fid)
+            with open(path, "wb") as fh:
+                fh.write(join_edits(edits))
+            mv = self.tool.cmd("mv " + path)[0]
+            out = self.tool.cmd("verify %s 1 %s" % (dst, " ".join(self.run.opts)), multi=True)
+            impl = out[0] if out else "NONE"
+            self.stats["cases"] += 1
+            self.stats["crc_" + mode] += 1
+            replay = {"case": "crc:%s %s of edit %d" % (mode, field, e), "fragment": fid, "impl": impl, "manifest_verifier": mv,
+                      "patched_fragment": join_edits(edits).decode("latin1")[-1500:]}
+            if not mv.startswith("MV err"):
+                self.problem("property", what="ManifestVerifier ACCEPTS a fragment with a line that fails its crc32c", **replay)
+            accepted = impl == "PASS ok"
+            if "backoff" in impl:
+                vs = L.Inspection(self.tool.cmd("inspect %s brief" % dst, multi=True)).state["verify"]
+                m = vs.get("M", "-")
+                accepted = (int(m.split(".")[1]) if m.startswith("MANIFEST.") else 0) + 1 >= fid
+            if accepted:
+                self.problem("property", what="LsmVerifier ACCEPTS a fragment with a line that fails its crc32c", **replay)
+            else:
+                self.stats["rejected"] += 1
+        finally:
+            shutil.rmtree(dst, ignore_errors=True)
+
     # ------------------------------------------------------------ patches
     @staticmethod
     def find_line(edit, prefix, nth=0):
@@ -294,6 +346,9 @@ class Campaign:
             for pos in positions:
                 self.one_case(fid, self.digit_patch(e, f, nth, pos, rng.choice(HEXD)),
                               "digit:%s of %s edit" % ({"+": "added digest", "-": "removed digest"}.get(f, f), "a roll-up" if e == 0 else "a transaction"), must)
+        # the same digit classes with the line's crc left alone, and a damaged crc
+        for (_, fid, e, f, nth, must) in [rng.choice(todo) for _ in range(max(3, budget // 3))]:
+            self.crc_case(fid, e, f, nth, rng.below(64), rng.choice(HEXD), rng.choice(["keepcrc", "keepcrc", "crc"]))
         # entries of outputs
         outs = []
         for fid in cands:
